@@ -15,7 +15,7 @@ L2_TRUST = ['L2 model (coq/theories/L2/Model.v): ONE queue with futures, three r
 PROPS = {
     'C01': {
         'correspondence': CORR_L1,
-        'coq': ['theories/Props/C01.vo', 'theories/Inst/C01_now.vo', 'theories/L2/PropsC01.vo', 'theories/L2/Inst.vo', 'theories/Inst/Fut_now.vo', 'theories/SyncFut/PropsC08.vo', 'theories/Inst/C08_now.vo', 'theories/Inst/Wrapper_now.vo'],
+        'coq': ['theories/Props/C01.vo', 'theories/Inst/C01_now.vo', 'theories/L2/PropsC01.vo', 'theories/L2/Inst.vo', 'theories/Inst/Fut_now.vo', 'theories/SyncFut/PropsC08.vo', 'theories/Inst/C08_now.vo', 'theories/Inst/Wrapper_now.vo', 'theories/L1n/PropsL1n.vo', 'theories/L1n/Inst.vo'],
         'profiles': [prof('core', (60, 15), (1500, 60)), prof('sync', (40, 15), (800, 60)), prof('fut', (50, 15), (1000, 60)), prof('fsync', (30, 10), (600, 40)), prof('pipein', (20, 10), (400, 40), extra=['--max-steps', '30000']), prof('sweep:overlap_sweep.progs', (0, 2), (0, 12)), prof('progs:fut_extra.progs', (0, 60), (0, 1500)), prof('progs:cancel.progs', (0, 100), (0, 3000)), prof('progs:syncfut_extra.progs', (0, 20), (0, 300)), prof('progs:pipe_yield.progs', (0, 60), (0, 1500), extra=['--max-steps', '30000'])],
         'monitors': ['C01'], 'liveness': False, 'panics': False,
         'trusted_base': L1_TRUST,
@@ -23,7 +23,7 @@ PROPS = {
     },
     'C03': {
         'correspondence': CORR_L1,
-        'coq': ['theories/Props/C03.vo', 'theories/Inst/C03_now.vo', 'theories/L1h/PropsC03once.vo', 'theories/L1h/Inst.vo', 'theories/L1b/PropsLbound.vo', 'theories/L1b/Inst.vo', 'theories/Inst/Fut_now.vo', 'theories/Inst/Jobs_now.vo'],
+        'coq': ['theories/Props/C03.vo', 'theories/Inst/C03_now.vo', 'theories/L1h/PropsC03once.vo', 'theories/L1h/Inst.vo', 'theories/L1b/PropsLbound.vo', 'theories/L1b/Inst.vo', 'theories/Inst/Fut_now.vo', 'theories/Inst/Jobs_now.vo', 'theories/L1n/PropsL1n.vo', 'theories/L1n/Inst.vo'],
         'profiles': [prof('pool', (80, 20), (2000, 80)), prof('core', (40, 10), (1000, 40), extra=['--min-pool', '1']), prof('fut', (50, 15), (1000, 60), extra=['--min-pool', '1']), prof('progs:fut_extra.progs', (0, 60), (0, 1500)), prof('progs:susp_extra.progs', (0, 60), (0, 1500)), prof('progs:f6_waiter_takeover.progs', (0, 60), (0, 1500))],
         'monitors': ['C03'], 'liveness': True, 'panics': False,
         'trusted_base': L1_TRUST,
@@ -31,7 +31,7 @@ PROPS = {
     },
     'C02': {
         'correspondence': CORR_L1,
-        'coq': ['theories/L1h/PropsC02.vo', 'theories/L1h/Inst.vo', 'theories/L1r/PropsObjExec.vo', 'theories/L1r/Inst.vo', 'theories/L2/PropsC02.vo', 'theories/L2/Inst.vo', 'theories/Inst/Fut_now.vo', 'theories/SyncFut/PropsC08.vo', 'theories/Inst/C08_now.vo'],
+        'coq': ['theories/L1h/PropsC02.vo', 'theories/L1h/Inst.vo', 'theories/L1r/PropsObjExec.vo', 'theories/L1r/Inst.vo', 'theories/L2/PropsC02.vo', 'theories/L2/Inst.vo', 'theories/Inst/Fut_now.vo', 'theories/SyncFut/PropsC08.vo', 'theories/Inst/C08_now.vo', 'theories/L1n/PropsL1n.vo', 'theories/L1n/Inst.vo'],
         'profiles': [prof('core', (60, 15), (1500, 60)), prof('sync', (40, 15), (800, 60)), prof('fut', (40, 15), (800, 40)), prof('fsync', (30, 10), (600, 40)), prof('sweep:overlap_sweep.progs', (0, 2), (0, 12)), prof('progs:fut_extra.progs', (0, 60), (0, 1500)), prof('progs:cancel.progs', (0, 100), (0, 3000)), prof('progs:syncfut_extra.progs', (0, 20), (0, 300))],
         'monitors': ['C02'], 'liveness': False, 'panics': False,
         'trusted_base': L1_TRUST + ['L1h: history observer over the unmodified L1 step function'],
@@ -39,11 +39,11 @@ PROPS = {
     },
     'C04': {
         'correspondence': CORR_L1,
-        'coq': ['theories/Props/C04.vo', 'theories/Inst/C04_now.vo', 'theories/L1h/PropsC04.vo', 'theories/L1h/Inst.vo', 'theories/L1b/PropsLbound.vo', 'theories/L1b/Inst.vo', 'theories/L1z/PropsC04zero.vo', 'theories/L1z/Inst.vo', 'theories/Inst/Fut_now.vo', 'theories/L2/PropsC06.vo', 'theories/L2/Inst.vo', 'theories/Inst/Jobs_now.vo', 'theories/Inst/Wrapper_now.vo', 'theories/L2/PropsC04.vo'],
+        'coq': ['theories/Props/C04.vo', 'theories/Inst/C04_now.vo', 'theories/L1h/PropsC04.vo', 'theories/L1h/Inst.vo', 'theories/L1b/PropsLbound.vo', 'theories/L1b/Inst.vo', 'theories/L1z/PropsC04zero.vo', 'theories/L1z/Inst.vo', 'theories/Inst/Fut_now.vo', 'theories/L2/PropsC06.vo', 'theories/L2/Inst.vo', 'theories/Inst/Jobs_now.vo', 'theories/Inst/Wrapper_now.vo', 'theories/L2/PropsC04.vo', 'theories/L1n/PropsL1n.vo', 'theories/L1n/Inst.vo'],
         'profiles': [prof('sync', (80, 20), (2000, 80)), prof('core', (40, 10), (800, 40)), prof('pool', (30, 10), (600, 40)), prof('fut', (40, 15), (800, 60), extra=['--max-pool', '1']), prof('progs:fut_extra.progs', (0, 60), (0, 1500)), prof('progs:susp_extra.progs', (0, 60), (0, 1500)), prof('progs:f6_waiter_takeover.progs', (0, 60), (0, 1500))],
         'monitors': ['C04'], 'liveness': True, 'panics': True,
         'trusted_base': L1_TRUST,
-        'assumptions': ['C04_full (any pool maximum incl. 0) is proved for layer L1 (operations that do not suspend); sync on a queue suspended on a future: L2 now models the sync_background waiter (kicked flag, claim through the generated t_claim, take-over with the sync-drain frames): C04_sync_returns_L2 - for any program and ANY pool size incl. 0, in a terminal state with all events fired nobody is left inside sync in any of its three modes; C04_needs_waiter_takeover_refuted_L2 = finding F6 (old claim table, witness by vm_compute). Earlier text: L2\'s terminal theorem (pool >= 1) and by the profiles; nested sync from inside jobs is exercised by the profiles, not modelled'],
+        'assumptions': ['nested sync (called from inside a job of another object, any depth, acyclic object order): L1n (C04n_sync_runs_own_closure, C03n_quiescent_is_complete). C04_full (any pool maximum incl. 0) is proved for layer L1 (operations that do not suspend); sync on a queue suspended on a future: L2 now models the sync_background waiter (kicked flag, claim through the generated t_claim, take-over with the sync-drain frames): C04_sync_returns_L2 - for any program and ANY pool size incl. 0, in a terminal state with all events fired nobody is left inside sync in any of its three modes; C04_needs_waiter_takeover_refuted_L2 = finding F6 (old claim table, witness by vm_compute). Earlier text: L2\'s terminal theorem (pool >= 1) and by the profiles; nested sync from inside jobs is exercised by the profiles, not modelled'],
     },
     'C05': {
         'correspondence': CORR_L1,
@@ -79,7 +79,7 @@ PROPS = {
     },
     'C09': {
         'correspondence': CORR_L1,
-        'coq': ['theories/Props/C09.vo', 'theories/Inst/C09_now.vo', 'theories/Inst/Wrapper_now.vo'],
+        'coq': ['theories/Props/C09.vo', 'theories/Inst/C09_now.vo', 'theories/Inst/Wrapper_now.vo', 'theories/L1n/PropsL1n.vo', 'theories/L1n/Inst.vo'],
         'profiles': [prof('try', (80, 20), (2000, 80)), prof('sweep:overlap_sweep.progs', (0, 2), (0, 12)), prof('progs:try_extra.progs', (0, 60), (0, 1500)), prof('progs:fsync_pool0.progs', (0, 40), (0, 1000))],
         'monitors': ['C09'], 'liveness': True, 'panics': False,
         'trusted_base': L1_TRUST,
@@ -87,7 +87,7 @@ PROPS = {
     },
     'C10': {
         'correspondence': CORR_L1,
-        'coq': ['theories/L1g/PropsC10.vo', 'theories/L1g/Inst.vo', 'theories/PoolChg/Inst.vo'],
+        'coq': ['theories/L1g/PropsC10.vo', 'theories/L1g/Inst.vo', 'theories/PoolChg/Inst.vo', 'theories/L1n/PropsL1n.vo', 'theories/L1n/Inst.vo'],
         'profiles': [prof('gate', (80, 20), (2000, 80)), prof('pool', (40, 10), (800, 40))],
         'monitors': ['C10', 'C03', 'C04'], 'liveness': True, 'panics': True,
         'trusted_base': L1_TRUST + ['a blocked operation is an actor that never moves while at its closure-run frame (frozen set B)'],
